@@ -75,6 +75,15 @@ pub open spec fn strip_all(p: Seq<char>, s: Seq<char>) -> Seq<char>
 pub assume_specification<P: std::str::pattern::Pattern>[ str::trim_start_matches::<P> ](s: &str, p: P) -> (r: &str)
     ensures r@ == strip_all(pat_view(p), s@);
 
+/// assumed std contract: `split_once` cuts the text at an occurrence of the pattern (the first one; not needed here)
+pub assume_specification<'a, P: std::str::pattern::Pattern>[ str::split_once::<P> ](s: &'a str, p: P) -> (r: Option<(&'a str, &'a str)>)
+    ensures r matches Some(ab) ==> s@ == ab.0@ + pat_view(p) + ab.1@;
+
+/// `str::replace`: some function of the three texts (not modelled further)
+pub uninterp spec fn spec_replace(s: Seq<char>, from: Seq<char>, to: Seq<char>) -> Seq<char>;
+pub assume_specification<P: std::str::pattern::Pattern>[ str::replace::<P> ](s: &str, from: P, to: &str) -> (r: String)
+    ensures r@ == spec_replace(s@, pat_view(from), to@);
+
 // ---------- C15: the header scan, from the property statement ----------
 pub open spec fn spec_hash_from(lines: Seq<Seq<char>>, i: int) -> Option<Seq<char>>
     decreases lines.len() - i
@@ -88,6 +97,74 @@ pub open spec fn spec_hash_from(lines: Seq<Seq<char>>, i: int) -> Option<Seq<cha
 /// the remainder of the first line starting with `// @sha256 ` inside the leading block of `//` lines
 pub open spec fn spec_hash(text: Seq<char>) -> Option<Seq<char>> {
     spec_hash_from(spec_lines(text), 0)
+}
+
+// ---------- reading the hash back from a text that starts with known comment lines ----------
+pub open spec fn no_nl(l: Seq<char>) -> bool { forall|i: int| 0 <= i < l.len() ==> #[trigger] l[i] != '\n' }
+pub open spec fn nl() -> Seq<char> { seq!['\n'] }
+
+pub proof fn lemma_first_nl_after(l: Seq<char>, rest: Seq<char>)
+    requires no_nl(l)
+    ensures first_nl(l + nl() + rest) == l.len()
+    decreases l.len()
+{
+    let t = l + nl() + rest;
+    if l.len() == 0 { assert(t[0] == '\n'); }
+    else {
+        assert(t[0] == l[0]);
+        let l1 = l.subrange(1, l.len() as int);
+        assert(t.subrange(1, t.len() as int) =~= l1 + nl() + rest);
+        lemma_first_nl_after(l1, rest);
+    }
+}
+pub proof fn lemma_lines_cons(l: Seq<char>, rest: Seq<char>)
+    requires no_nl(l)
+    ensures spec_lines(l + nl() + rest) == seq![strip_cr(l)] + spec_lines(rest)
+{
+    let t = l + nl() + rest;
+    lemma_first_nl_after(l, rest);
+    assert(t.subrange(0, l.len() as int) =~= l);
+    assert(t.subrange(l.len() as int + 1, t.len() as int) =~= rest);
+}
+pub proof fn lemma_hash_shift(x: Seq<char>, lines: Seq<Seq<char>>, i: int)
+    requires 0 <= i
+    ensures spec_hash_from(seq![x] + lines, i + 1) == spec_hash_from(lines, i)
+    decreases lines.len() - i
+{
+    let xl = seq![x] + lines;
+    if i < lines.len() {
+        assert(xl[i + 1] == lines[i]);
+        lemma_hash_shift(x, lines, i + 1);
+    }
+}
+/// a leading `//` line that is not the hash line is skipped
+pub proof fn lemma_hash_skip(text: Seq<char>, l: Seq<char>)
+    requires is_prefix(l + nl(), text), no_nl(l), l.len() == 0 || l.last() != '\r', is_prefix("//"@, l), !is_prefix("// @sha256 "@, l)
+    ensures spec_hash(text) == spec_hash(text.subrange(l.len() as int + 1, text.len() as int))
+{
+    let rest = text.subrange(l.len() as int + 1, text.len() as int);
+    assert(text =~= l + nl() + rest) by { assert(text.subrange(0, l.len() as int + 1) == l + nl()); }
+    lemma_lines_cons(l, rest);
+    let lines = seq![l] + spec_lines(rest);
+    assert(lines[0] == l);
+    lemma_hash_shift(l, spec_lines(rest), 0);
+}
+/// the hash line is read back
+pub proof fn lemma_hash_hit(text: Seq<char>, h: Seq<char>)
+    requires is_prefix("// @sha256 "@ + h + nl(), text), no_nl(h), h.len() == 0 || h.last() != '\r'
+    ensures spec_hash(text) == Some(h)
+{
+    reveal_strlit("// @sha256 "); reveal_strlit("//");
+    let l = "// @sha256 "@ + h;
+    let rest = text.subrange(l.len() as int + 1, text.len() as int);
+    assert(text =~= l + nl() + rest) by { assert(text.subrange(0, l.len() as int + 1) == "// @sha256 "@ + h + nl()); assert("// @sha256 "@ + h + nl() =~= l + nl()); }
+    assert(no_nl(l));
+    lemma_lines_cons(l, rest);
+    let lines = seq![l] + spec_lines(rest);
+    assert(lines[0] == l);
+    assert(is_prefix("// @sha256 "@, l)) by { assert(l.subrange(0, 11) =~= "// @sha256 "@); }
+    assert(is_prefix("//"@, l)) by { assert(l.subrange(0, 2) =~= "//"@); }
+    assert(l.subrange(11, l.len() as int) =~= h);
 }
 
 /// trusted: `&str == String` compares the character sequences (std: impl PartialEq<String> for &str)
